@@ -965,6 +965,12 @@ impl Printer {
                 self.t(f);
                 self.t(";");
             }
+            // a version statement carried as a raw item: the header lexeme and its `;` are two
+            // tokens; the gap between them is nothing or blanks (like a unit after its number)
+            Stmt::Pragma(t) if t.starts_with("OPENQASM ") && t.ends_with(';') => {
+                self.t(&t[..t.len() - 1]);
+                self.toks.push(Tok { text: ";".to_string(), line: false, unit: true, stmt: self.cur_stmt });
+            }
             Stmt::Pragma(t) | Stmt::Annotation(t) => self.line(t),
         }
     }
